@@ -303,7 +303,24 @@ def run_history(ctx, case, drv, pending):
             i, e = op[1], op[2]
             if i >= len(trees):
                 continue
-            if n % 3 == 0:
+            if e["kind"] == "remove_class" and drv is not None:
+                # the model performs the same removal (by the name of the argument) on the same snapshot
+                gs = a04.Graph([tr["tree"] for tr in trees])
+                s0 = gs.signatures()
+                hidx = a04.outcome(lambda: gs.idx(_cls(trees[i]["tree"], e["parent"])))
+                r = apply_edit(trees[i]["tree"], trees[i]["lib"], e)
+                s1 = gs.signatures()
+                written = [k for k in range(len(s0)) if s0[k] != s1[k]]
+                if r is None and hidx[0] == "ok" and hidx[1] is not None:
+                    ans = drv.ask({"op": "graph.removeclass", "heap": gs.to_json(), "cfg": c05.cfg_for_model(ctx),
+                                   "holder": hidx[1], "name": e["name"], "registered": e.get("how", "registered") == "registered"})
+                    ctx.count("model-removeclass")
+                    if not ans.get("ok"):
+                        raise HarnessError("model driver rejected removeclass: %s" % ans)
+                    if sorted(ans.get("written") or []) != written:
+                        ctx.disagreement("removeclass-writes", dict(small, upto=n + 1), ans.get("written"),
+                                         [(k, gs.rows[k][0], gs.rows[k][4]) for k in written])
+            elif n % 3 == 0:
                 box = {}
 
                 def do():
